@@ -5,25 +5,39 @@ package main
 //
 // Real code: kmipclient.Client over an in-memory fault-injecting transport (cli_net.go): the dialer
 // given to kmipclient.WithDialerUnsafe returns a wrapper around one end of a net.Pipe() that can fail
-// the k-th Read / Write of the n-th connection (io.EOF, net.ErrClosed, ECONNRESET, short write,
-// partial message, server closes right after replying) or the n-th dial; the other end is served by
-// a scripted server that ECHOES the identifier of each request (Activate(id) -> id), after a scripted
-// delay, or stays silent / closes. The verif yield points of kmipclient are driven by a director
-// (cancel a caller's context, call Close(), hold a goroutine exactly there).
+// the k-th Read / Write of the n-th connection (io.EOF, net.ErrClosed, ECONNRESET, deadline exceeded, unexpected
+// EOF, short write, partial message, server closes right after replying, a Write that fails while the read side
+// stays healthy, a Write reported as failed after the request was delivered and answered) or the n-th dial
+// (refused, or blocking until its context ends); the other end is served by a scripted server that ECHOES the
+// identifier of each request (Activate(id) -> id), after a scripted delay (possibly out of order), or stays
+// silent / closes. The verif yield points of kmipclient are driven by a director (end a caller's context by
+// cancellation or by deadline, call Close(), hold a goroutine exactly there); the same is done from inside the
+// transport's Write (the caller is in send's inner select) and while a caller is queued for the client.
 //
 // Oracles (no model involved): every call returns, within a time limit, an error or the response
 // carrying ITS OWN identifier; a connection that carried an abandoned exchange carries no later
 // exchange; no panic (scenarios run in a child process: a panic in one of the client's own goroutines
 // kills the process); a call during which nothing fails, on an open client whose earlier faults have
-// been processed, succeeds — also when it was waiting for the client while the fault hit the call before it; at
-// most 4 transmissions per call, counted as request messages on the wire; the retry budget itself is OBSERVED
-// (dry run) and handed to the model with every scenario; after Close calls fail without dialing; Close is
-// idempotent; after Close the goroutines started by the client are gone (positive control: they are seen while
-// a connection is open).
+// been processed, succeeds — also when it was waiting for the client while the fault hit the call before it
+// (families flt/conc and win: the window closed by "terminate before reporting a write error", widened by
+// delaying the cancellation of the connection context); at most 4 transmissions per call, counted as REQUEST
+// MESSAGES on the wire (TTLV frames of the client's byte stream, attributed by the identifier they carry); the
+// retry budget itself is OBSERVED (dry run) and handed to the model with every scenario; after Close calls fail
+// without dialing or transmitting; Close is idempotent; after Close the goroutines STARTED BY the client package
+// are gone (found by "created by <package>" in the goroutine dump, not by function names; positive control:
+// they are seen while a connection is open); a call whose dial cannot complete returns when its context ends;
+// no data race inside the library (cli_race.go: the Close/reconnect scenarios once more under the race detector).
 //
-// Correspondence: `lts.member cliconn current <spec> <scenario> <outcome>`; the model explores every
-// interleaving of Kmip.CliConn under the scenario script and answers whether the observed outcome is
-// possible (`ok in`).
+// Time: every wait is a multiple of the duration of one exchange measured by the dry run, with a floor; waits are
+// for events (with an upper bound), not fixed sleeps, wherever an event exists. Verdicts that rest on "did not
+// happen in time", and outcomes the model does not have, are confirmed by re-runs before they are reported
+// (lcConfirm); violations that state an event that did happen are reported at once.
+//
+// Correspondence: `lts.member cliconn current <spec> b<budget>;<scenario> <outcome>`; the model explores every
+// interleaving of Kmip.CliConn under the scenario script (with the observed retry budget) and answers whether the
+// observed outcome is possible (`ok in`). The dial count is part of the outcome only where the property speaks
+// about dialing (closed clients, failed dials, negotiation); `lts.budget` compares the observed budget with the
+// model's; `lts.unfused` has the model check its own step fusion by evaluation.
 
 import (
 	"bufio"
@@ -45,6 +59,7 @@ import (
 	"github.com/ovh/kmip-go"
 	"github.com/ovh/kmip-go/kmipclient"
 
+	"verifharness/internal/model"
 	"verifharness/internal/report"
 	"verifharness/internal/rng"
 )
@@ -181,24 +196,24 @@ type lcPhase struct {
 }
 
 type lcEnv struct {
-	spec     *lcSpec
-	net      *lcNet
-	srv      *lcServer
-	dir      *lcDirector
-	cl       *kmipclient.Client
-	res      *lcResult
-	base     int // client goroutines before the scenario
-	phases   []*lcPhase
-	armed    map[*lcFault]int // fault -> phase in which it was armed
-	nextID   int
-	closed   atomic.Bool // Close() has returned
-	closing  atomic.Bool // Close() has been called
-	closeWG  sync.WaitGroup
-	extra    map[int]string // additional fault letters per phase (faults not injected through lcFault)
-	mu       sync.Mutex
-	termObjs map[string]bool // connections seen at cli.terminate.afterCancel
-	exactDials bool          // the dial count is part of the canonical outcome
-	r        *rng.R
+	spec       *lcSpec
+	net        *lcNet
+	srv        *lcServer
+	dir        *lcDirector
+	cl         *kmipclient.Client
+	res        *lcResult
+	base       int // client goroutines before the scenario
+	phases     []*lcPhase
+	armed      map[*lcFault]int // fault -> phase in which it was armed
+	nextID     int
+	closed     atomic.Bool // Close() has returned
+	closing    atomic.Bool // Close() has been called
+	closeWG    sync.WaitGroup
+	extra      map[int]string // additional fault letters per phase (faults not injected through lcFault)
+	mu         sync.Mutex
+	termObjs   map[string]bool // connections seen at cli.terminate.afterCancel
+	exactDials bool            // the dial count is part of the canonical outcome
+	r          *rng.R
 }
 
 // observed by the dry run (parent) and handed to the children through the environment:
@@ -350,9 +365,9 @@ type lcCall struct {
 	tx      int   // complete request messages carrying this call's identifier that the client has written
 	partial int64 // request frames started but not completed while the call was running (a writer that cuts a
 	// message into several Writes and fails in between): attributed to the call when no other call is running
-	fired   int   // faults fired during the call
-	firedAt int   // total number of faults fired when the call returned
-	conn    int   // connection on which the server last saw the request (-1: never)
+	fired   int // faults fired during the call
+	firedAt int // total number of faults fired when the call returned
+	conn    int // connection on which the server last saw the request (-1: never)
 	done    chan struct{}
 }
 
@@ -1394,6 +1409,11 @@ func init() {
 	if v, err := strconv.ParseInt(os.Getenv(lcChildEnv+"_EXCH_NS"), 10, 64); err == nil {
 		lcCalibrate(time.Duration(v))
 	}
+	if v, err := strconv.Atoi(os.Getenv(lcChildEnv + "_PATIENCE")); err == nil && v > 1 {
+		// a re-run that is to confirm a "did not happen in time" observation waits v times longer
+		lcWaitEvent *= time.Duration(v)
+		lcCallLimit *= time.Duration(v)
+	}
 	if v, err := strconv.Atoi(os.Getenv(lcChildEnv + "_BUDGET")); err == nil {
 		lcBudget = v
 	}
@@ -1427,12 +1447,16 @@ var lcChildExtraEnv []string
 
 // lcRunChild runs the specs in child processes; a crash is attributed to the scenario that was running.
 func lcRunChild(ctx *Ctx, specs []string) []*lcResult {
+	return lcRunChildEnv(ctx, specs, nil)
+}
+
+func lcRunChildEnv(ctx *Ctx, specs []string, extraEnv []string) []*lcResult {
 	var results []*lcResult
 	for len(specs) > 0 {
 		limit := time.Duration(len(specs))*3*time.Second + 30*time.Second
 		cctx, cancel := context.WithTimeout(context.Background(), limit)
 		cmd := exec.CommandContext(cctx, os.Args[0])
-		cmd.Env = append(append(os.Environ(), lcChildEnv+"=1"), lcChildExtraEnv...)
+		cmd.Env = append(append(append(os.Environ(), lcChildEnv+"=1"), lcChildExtraEnv...), extraEnv...)
 		cmd.Stdin = strings.NewReader(strings.Join(specs, "\n") + "\n")
 		var stderr strings.Builder
 		cmd.Stderr = &stderr
@@ -1685,13 +1709,15 @@ func lcRegister(ctx *Ctx, r *lcResult) {
 }
 
 func runLtsCli(ctx *Ctx) {
-	var specs []string
+	var specs, raceSpecs []string
 	if len(ctx.Replay) > 0 {
 		for _, l := range ctx.Replay {
 			f := strings.Fields(l)
 			switch {
 			case len(f) >= 3 && f[0] == "#" && f[1] == "lts.cli":
 				specs = append(specs, f[2])
+			case len(f) >= 3 && f[0] == "#" && f[1] == "lts.cli.race":
+				raceSpecs = append(raceSpecs, f[2])
 			case len(f) >= 4 && f[0] == "lts.member" && f[1] == "cliconn":
 				specs = append(specs, f[3])
 			}
@@ -1747,7 +1773,11 @@ func runLtsCli(ctx *Ctx) {
 	}
 	if len(ctx.Replay) == 0 {
 		specs = lcSpecs(ctx, dry)
+		raceSpecs = lcRaceSpecs(dry)
 	}
+	// the race pass runs beside the scenarios
+	raceDone := make(chan func(*Ctx), 1)
+	go func() { raceDone <- lcRacePass(raceSpecs) }()
 	// batches, so that a crash costs little and the children run in parallel
 	const batch = 40
 	nb := (len(specs) + batch - 1) / batch
@@ -1767,17 +1797,144 @@ func runLtsCli(ctx *Ctx) {
 		}()
 	}
 	wg.Wait()
+	var all []*lcResult
 	for _, rs := range results {
-		for _, r := range rs {
-			lcRegister(ctx, r)
+		all = append(all, rs...)
+	}
+	(<-raceDone)(ctx)
+	all = lcConfirm(ctx, all)
+	for _, r := range all {
+		lcRegister(ctx, r)
+	}
+}
+
+// observations of the form "did not happen within the time limit": on a loaded machine they can be artefacts.
+var lcTimingKeys = []string{"lts.cli:call-hangs", "lts.cli:dial-hangs", "lts.cli:second-close-hangs", "lts.cli:process-hangs",
+	"lts.cli:goroutines-after-close", "lts.cli:goroutines-after-failed-dial", "lts.cli:broken-connection-not-terminated"}
+
+func lcTimingOnly(r *lcResult) bool {
+	if len(r.Viol) == 0 {
+		return false
+	}
+	for _, v := range r.Viol {
+		timing := false
+		for _, k := range lcTimingKeys {
+			if v.Key == k {
+				timing = true
+			}
+		}
+		if !timing {
+			return false
 		}
 	}
+	return true
+}
+
+// lcConfirm makes the verdicts robust against the load of the machine without hiding anything reproducible:
+//
+//	(1) a scenario whose only violations are "did not happen in time" observations is run again, alone, with four
+//	    times the patience; the violation is reported if it shows again (a genuine hang or leak does), otherwise the
+//	    re-run's result is used and the event is counted as information;
+//	(2) a scenario whose observed outcome the model does not have is run again up to three times; the disagreement is
+//	    reported if a non-member outcome shows again, otherwise the re-run's (member) outcome is used and the event
+//	    is counted as information. Violations that state an event that DID happen (foreign response, panic, a clean
+//	    call that failed, too many transmissions, ...) are never re-tried.
+func lcConfirm(ctx *Ctx, all []*lcResult) []*lcResult {
+	if len(ctx.Replay) > 0 {
+		return all // a replay reports what it sees
+	}
+	for i, r := range all {
+		if r.Fail != "" || !lcTimingOnly(r) {
+			continue
+		}
+		again := false
+		var last *lcResult
+		for try := 0; try < 2 && !again; try++ {
+			rs := lcRunChildEnv(ctx, []string{r.Spec}, []string{lcChildEnv + "_PATIENCE=4"})
+			if len(rs) == 0 {
+				again = true
+				break
+			}
+			last = rs[0]
+			again = len(last.Viol) > 0
+		}
+		if again || last == nil {
+			continue
+		}
+		ctx.Res.Count("lts.cli: timing observation not reproduced with more patience (machine load?): " + r.Viol[0].Key + " " + r.Spec)
+		all[i] = last
+	}
+	// membership pre-check on the distinct (scenario, outcome) pairs
+	type key struct{ scen, out string }
+	idx := map[key]int{}
+	var lines []string
+	for _, r := range all {
+		if r.Fail != "" || r.Scenario == "" || len(r.Viol) > 0 {
+			continue
+		}
+		k := key{r.Scenario, r.Outcome}
+		if _, ok := idx[k]; !ok {
+			idx[k] = len(lines)
+			lines = append(lines, fmt.Sprintf("lts.member cliconn current - %s %s", r.Scenario, r.Outcome))
+		}
+	}
+	if len(lines) == 0 {
+		return all
+	}
+	answers, err := model.Run(lines)
+	if err != nil {
+		return all // the framework will report the model failure
+	}
+	member := func(r *lcResult) (bool, bool) {
+		k, ok := idx[key{r.Scenario, r.Outcome}]
+		if ok {
+			return answers[k] == "ok in", true
+		}
+		a, err := model.Run([]string{fmt.Sprintf("lts.member cliconn current - %s %s", r.Scenario, r.Outcome)})
+		if err != nil || len(a) != 1 {
+			return false, false
+		}
+		return a[0] == "ok in", true
+	}
+	for i, r := range all {
+		if r.Fail != "" || r.Scenario == "" || len(r.Viol) > 0 {
+			continue
+		}
+		if in, ok := member(r); in || !ok {
+			continue
+		}
+		reproduced := false
+		var good *lcResult
+		for try := 0; try < 3 && !reproduced; try++ {
+			rs := lcRunChild(ctx, []string{r.Spec})
+			if len(rs) == 0 || rs[0].Fail != "" || rs[0].Scenario == "" {
+				continue
+			}
+			if len(rs[0].Viol) > 0 {
+				// the re-run shows a violation: report that, with the non-member outcome
+				good = nil
+				reproduced = true
+				all = append(all, rs[0])
+				break
+			}
+			if in, ok := member(rs[0]); ok && !in {
+				reproduced = true
+			} else if ok && good == nil {
+				good = rs[0]
+			}
+		}
+		if !reproduced && good != nil {
+			ctx.Res.Count(fmt.Sprintf("lts.cli: outcome outside the model's set not reproduced in 3 re-runs: %s %s %s", r.Spec, r.Scenario, r.Outcome))
+			all[i] = good
+		}
+	}
+	return all
 }
 
 func init() {
 	register(&Engine{
 		Name: "lts.cli",
-		Rule: "real kmipclient.Client over an in-memory fault-injecting transport and a scripted echo server, verif yield points driven by a director; (a) C10: N in {2,3,4} concurrent callers, one cancelled exactly at cli.send.loaded / cli.roundtrip.afterSend / cli.read.beforeRx or timing out, its response early / late / never, then a further call; (b) C11: after a warm-up exchange, every Read and Write index of the next exchange (found by a dry run) x {EOF, closed, reset, partial message, short write, server closes after replying} x {when invoked, when data arrives} x next action {call, 3 calls, Close, Close during the pending call}, pairs of faults hitting the reconnection (dial, write, read), (c) every I/O operation of Dial's version negotiation, (d) Close() at each yield point of a pending call (in line and concurrently), (e) server dropping 1..5 successive connections (retry budget); scenarios run in child processes (a crash is a violation); thorough: repeated under random perturbation at the yield points; distinct = distinct scenario+outcome",
+		Rule: "real kmipclient.Client over an in-memory fault-injecting transport and a scripted echo server (answers possibly out of order), verif yield points driven by a director; I/O indices, time scale and retry budget measured by dry runs; (a) C10: N in {2,3,4} concurrent callers, one caller's context ended (cancellation / deadline) exactly at cli.send.loaded / cli.roundtrip.afterSend / cli.read.beforeRx, while its request is inside Write, while it is queued for the client behind a call whose response is late, or by a timer; its response early / late / never; the same in the retry that follows a reconnect (and at cli.beforeReconnect); a second abandoned call after the first; then a further call; (b) C11: after a warm-up exchange, every Read and Write index of the next exchange x {EOF, closed, reset, timeout, unexpected EOF, partial message, short write, server closes after replying, write-only reset/closed, failure reported after delivery} x {when invoked, when data arrives} x next action {call, 3 calls, Close, Close during the pending call, a second caller queued for the client}, pairs of faults hitting the reconnection (dial, write, read); (c) every I/O operation of Dial's version negotiation; (d) Close() at each yield point of a pending call (in line and concurrently); (e) server dropping 1..budget+1 successive connections (EOF and closed); (f) a write error with a queued caller while the cancellation of the connection context is delayed by polling it (window of 2c3eae7); (g) a dial that blocks until the caller's context ends; race pass: the Close/reconnect scenarios under the race detector; scenarios run in child processes (a crash is a violation) and are repeated under random perturbation at the yield points; timing-only verdicts and non-member outcomes are confirmed by re-runs; distinct = distinct scenario+outcome",
 		Run:  runLtsCli,
 	})
 }
